@@ -4,7 +4,7 @@ import io
 import json
 import os
 
-from common import Quiet, blit, listlit, optlit, zlit
+from common import Capture, Quiet, blit, listlit, optlit, zlit
 
 HEADER = """From Coq Require Import ZArith List Bool.
 From V Require Import Scan.ScanModel Run.RunLoop Harness.Cmp Harness.RunCmp.
@@ -38,8 +38,9 @@ def real_run(job):
     gen.write_rows(fname, job["rows"])
     obs = {"exc": None}
     calls = []
+    cap = Capture(fname + ".out") if job.get("capture") else Quiet()
     try:
-        with Quiet():
+        with cap:
             p = CsvPath()
             tp = TestPrinter()
             p.add_printer(tp)
@@ -83,6 +84,8 @@ def real_run(job):
             "printouts": list(tp.lines), "calls": calls,
             "scanner": {"these": list(sc.these), "from": sc.from_line, "to": sc.to_line, "all": bool(sc.all_lines)},
             "cwnm": bool(p.collect_when_not_matched), "unm_avail": bool(p.unmatched_available),
+            "will_run": bool(p.will_run), "stdout": getattr(cap, "text", None), "metadata": {k: v for k, v in (p.metadata or {}).items()},
+            "headers": list(p.headers or []),
         })
     except Exception as ex:  # parse errors etc.
         obs["exc"] = "SETUP " + type(ex).__name__ + ": " + str(ex)[:80]
@@ -104,7 +107,7 @@ def runcase_lit(job, obs):
     m = job["method"] if job["method"] < 4 else 3
     ret = obs["ret"] if obs["ret"] is not None else []
     unm = obs["unmatched"] if job["method"] in (0, 3) else []
-    return (f"mkRun {sc} {listlit(blanks, blit)} {blit(obs['cwnm'])} {blit(obs['unm_avail'])} {m} {job.get('k', 0)}%nat {tab} "
+    return (f"mkRun {sc} {listlit(blanks, blit)} {blit(obs['cwnm'])} {blit(obs['unm_avail'])} {blit(obs.get('will_run', True))} {m} {job.get('k', 0)}%nat {tab} "
             f"{listlit(ret)} {listlit(obs['unmatched'])} {zlit(obs['scan_count'])} {zlit(obs['match_count'])} {blit(obs['stopped'])}")
 
 
